@@ -14,6 +14,7 @@
 #include <stdint.h>
 #include <string.h>
 #include <unistd.h>
+#include <pthread.h>
 
 enum { VM_MMAP = 1, VM_MUNMAP = 2, VM_MPROTECT = 3, VM_MADVISE = 4 };
 enum { VP_RW = 1, VP_PURGED = 2, VP_EVER_RW = 4 };     // per-page state bits
@@ -28,6 +29,9 @@ static int  verif_fail_mask = 0x1e;     // which kinds may be refused (bit per V
 static long verif_faults_fired = 0;
 static long long verif_now_ns = 1000000000LL;   // virtual clock (starts at 1 s)
 static size_t vm_mapped_bytes = 0, vm_peak_mapped = 0;
+static pthread_mutex_t vm_mu = PTHREAD_MUTEX_INITIALIZER;   // the bookkeeping is shared by all threads of the harness
+#define VM_LOCK() pthread_mutex_lock(&vm_mu)
+#define VM_UNLOCK() pthread_mutex_unlock(&vm_mu)
 #define VM_PAGE 4096u
 
 static void vm_log(int kind, void* a, size_t n, int arg, int ok) {
@@ -76,28 +80,35 @@ static size_t vm_range(uintptr_t a, size_t n, int op /*1 set rw, 2 set none(purg
   return covered;
 }
 static void* verif_mmap(void* a, size_t n, int prot, int flags, int fd, off_t off) {
-  if (vm_should_fail(VM_MMAP)) { vm_log(VM_MMAP, a, n, prot, 0); errno = ENOMEM; return MAP_FAILED; }
+  VM_LOCK();
+  if (vm_should_fail(VM_MMAP)) { vm_log(VM_MMAP, a, n, prot, 0); VM_UNLOCK(); errno = ENOMEM; return MAP_FAILED; }
   void* p = mmap(a, n, prot, flags, fd, off);
   vm_log(VM_MMAP, p, n, prot, p != MAP_FAILED);
   if (p != MAP_FAILED) { if (flags & MAP_FIXED) vm_range((uintptr_t)p, n, 4); vm_add((uintptr_t)p, n, prot); }
+  VM_UNLOCK();
   return p;
 }
 static int verif_munmap(void* a, size_t n) {
-  if (vm_should_fail(VM_MUNMAP)) { vm_log(VM_MUNMAP, a, n, 0, 0); errno = EINVAL; return -1; }
+  VM_LOCK();
+  if (vm_should_fail(VM_MUNMAP)) { vm_log(VM_MUNMAP, a, n, 0, 0); VM_UNLOCK(); errno = EINVAL; return -1; }
   int r = munmap(a, n);
   vm_log(VM_MUNMAP, a, n, 0, r == 0);
   if (r == 0) vm_range((uintptr_t)a, n, 4);
+  VM_UNLOCK();
   return r;
 }
 static int verif_mprotect(void* a, size_t n, int prot) {
-  if (vm_should_fail(VM_MPROTECT)) { vm_log(VM_MPROTECT, a, n, prot, 0); errno = ENOMEM; return -1; }
+  VM_LOCK();
+  if (vm_should_fail(VM_MPROTECT)) { vm_log(VM_MPROTECT, a, n, prot, 0); VM_UNLOCK(); errno = ENOMEM; return -1; }
   int r = mprotect(a, n, prot);
   vm_log(VM_MPROTECT, a, n, prot, r == 0);
   if (r == 0) vm_range((uintptr_t)a, n, (prot & PROT_WRITE) ? 1 : 2);
+  VM_UNLOCK();
   return r;
 }
 static int verif_madvise(void* a, size_t n, int adv) {
-  if (vm_should_fail(VM_MADVISE)) { vm_log(VM_MADVISE, a, n, adv, 0); errno = ENOMEM; return -1; }
+  VM_LOCK();
+  if (vm_should_fail(VM_MADVISE)) { vm_log(VM_MADVISE, a, n, adv, 0); VM_UNLOCK(); errno = ENOMEM; return -1; }
   int r = madvise(a, n, adv);
   vm_log(VM_MADVISE, a, n, adv, r == 0);
   if (r == 0 && (adv == MADV_DONTNEED
@@ -105,6 +116,7 @@ static int verif_madvise(void* a, size_t n, int adv) {
       || adv == MADV_FREE
 #endif
       )) vm_range((uintptr_t)a, n, 3);
+  VM_UNLOCK();
   return r;
 }
 static int verif_clock_gettime(clockid_t c, struct timespec* ts) { (void)c; ts->tv_sec = verif_now_ns / 1000000000LL; ts->tv_nsec = verif_now_ns % 1000000000LL; return 0; }
